@@ -29,6 +29,7 @@ type cropTrack struct {
 	HasStss bool   `json:"hasstss"`
 	Sync    []bool `json:"sync"`
 	Spc     []int  `json:"spc"`
+	Indep   []bool `json:"-"` // C11 fragmented input: non-sync samples that are marked sample_depends_on = 2
 }
 
 type cropCase struct {
